@@ -332,6 +332,10 @@ pub enum EditOp {
     RetainNot(usize),
     Truncate(usize),
     Rename(usize),
+    /// rename to the name the element already has
+    RenameSame(usize),
+    /// rename to the name of the element behind it and back
+    RenameSwap(usize),
     Clear,
     SortDesc,
     PushBack,
@@ -359,6 +363,10 @@ impl EditOp {
                     EditOp::Truncate(n)
                 } else if let Some(n) = num("Rename(") {
                     EditOp::Rename(n)
+                } else if let Some(n) = num("RenameSame(") {
+                    EditOp::RenameSame(n)
+                } else if let Some(n) = num("RenameSwap(") {
+                    EditOp::RenameSwap(n)
                 } else {
                     return None;
                 }
@@ -386,6 +394,19 @@ fn apply_ops<T: A2lObjectName + A2lObjectNameSetter + Clone>(l: &mut ItemList<T>
             EditOp::Rename(i) => {
                 let n = format!("RENAMED_{}", name_at(l, *i));
                 l.rename_item(*i, &n);
+            }
+            EditOp::RenameSame(i) => {
+                let n = name_at(l, *i);
+                l.rename_item(*i, &n);
+            }
+            EditOp::RenameSwap(i) => {
+                // a -> tmp, b -> a's name, tmp -> b's name: the two elements exchange their names
+                if *i + 1 < l.len() {
+                    let (a, b) = (name_at(l, *i), name_at(l, *i + 1));
+                    l.rename_item(*i, "TMP_SWAP");
+                    l.rename_item(*i + 1, &a);
+                    l.rename_item(*i, &b);
+                }
             }
             EditOp::Clear => l.clear(),
             EditOp::SortDesc => l.sort_by(|a, b| b.get_name().cmp(a.get_name())),
@@ -517,6 +538,8 @@ fn edit_sequences(n: usize, depth: usize) -> Vec<Vec<EditOp>> {
         alpha.push(EditOp::RetainNot(i));
         alpha.push(EditOp::Truncate(i));
         alpha.push(EditOp::Rename(i));
+        alpha.push(EditOp::RenameSame(i));
+        alpha.push(EditOp::RenameSwap(i));
     }
     let mut out: Vec<Vec<EditOp>> = vec![];
     let mut frontier: Vec<Vec<EditOp>> = vec![vec![]];
@@ -601,6 +624,44 @@ pub fn run(tier: &str) -> Run {
             let after = format!("{}{}\n  {}{}", &t[..a], &t[a..b], other, &t[b..]);
             cases.push(Case11 { label: format!("{} [second module in front]", cases[i].label), pos: format!("{}+module-before", cases[i].pos), text: before, expect: cases[i].expect.clone() });
             cases.push(Case11 { label: format!("{} [second module behind]", cases[i].label), pos: format!("{}+module-after", cases[i].pos), text: after, expect: cases[i].expect.clone() });
+        }
+    }
+    // consistent characteristics over every assignment of axis kinds: the record layout describes exactly the dimensions whose
+    // AXIS_DESCR is a STD_AXIS, each dimension with a datatype of its own, and the limits of every STD_AXIS description use the
+    // full range of its own dimension (so pairing a description with another dimension shows as a limit or content report);
+    // COM_AXIS / RES_AXIS refer to an AXIS_PTS, CURVE_AXIS to a curve. The report must be empty.
+    {
+        let dims = [("X", "UBYTE", "255"), ("Y", "UWORD", "65535"), ("Z", "ULONG", "4294967295"), ("4", "FLOAT32_IEEE", "3e38"), ("5", "FLOAT64_IEEE", "1e300")];
+        let kinds = ["STD_AXIS", "COM_AXIS", "FIX_AXIS", "CURVE_AXIS", "RES_AXIS"];
+        for (ctype, n) in [("CURVE", 1usize), ("MAP", 2), ("CUBOID", 3), ("CUBE_4", 4), ("CUBE_5", 5)] {
+            for code in 0..5usize.pow(n as u32) {
+                // (five axes: every assignment with at most two kinds other than the first one's, to keep the family small in quick)
+                let attrs: Vec<&str> = (0..n).map(|i| kinds[(code / 5usize.pow(i as u32)) % 5]).collect();
+                if n == 5 && !thorough && attrs.iter().collect::<BTreeSet<_>>().len() > 2 {
+                    continue;
+                }
+                for tag in ["CHARACTERISTIC", "TYPEDEF_CHARACTERISTIC"] {
+                    let mut rl = e("RECORD_LAYOUT", "RLA", "c1").kid(ks("FNC_VALUES", &[("position", "1"), ("datatype", "FLOAT64_IEEE")]));
+                    let mut c = e(tag, "CA", "c1").set("characteristic_type", ctype).set(if tag == "CHARACTERISTIC" { "deposit" } else { "record_layout" }, "RLA").set("conversion", "NO_COMPU_METHOD").set("lower_limit", "0").set("upper_limit", "1");
+                    for (i, a) in attrs.iter().enumerate() {
+                        let (dn, dt, max) = dims[i];
+                        let mut k = ks("AXIS_DESCR", &[("attribute", a), ("input_quantity", "M"), ("conversion", "NO_COMPU_METHOD"), ("lower_limit", "0"), ("upper_limit", if *a == "STD_AXIS" { max } else { "1" })]);
+                        match *a {
+                            "STD_AXIS" => rl = rl.kid(ks(&format!("AXIS_PTS_{dn}"), &[("position", &format!("{}", i + 2)), ("datatype", dt)])),
+                            "COM_AXIS" | "RES_AXIS" => k = k.with(ks("AXIS_PTS_REF", &[("axis_points", "AX")])),
+                            "CURVE_AXIS" => k = k.with(ks("CURVE_AXIS_REF", &[("curve_axis", "CV")])),
+                            _ => {}
+                        }
+                        c = c.kid(k);
+                    }
+                    let rlx = e("RECORD_LAYOUT", "RLX", "c1").kid(ks("FNC_VALUES", &[("position", "1"), ("datatype", "FLOAT64_IEEE")])).kid(ks("AXIS_PTS_X", &[("position", "2"), ("datatype", "FLOAT64_IEEE")]));
+                    let m = e("MEASUREMENT", "M", "c1").set("datatype", "FLOAT64_IEEE").set("conversion", "NO_COMPU_METHOD").set("lower_limit", "0").set("upper_limit", "1");
+                    let ax = e("AXIS_PTS", "AX", "c1").set("input_quantity", "M").set("deposit_record", "RLX").set("conversion", "NO_COMPU_METHOD").set("lower_limit", "0").set("upper_limit", "1");
+                    let cv = e("CHARACTERISTIC", "CV", "c1").set("characteristic_type", "CURVE").set("deposit", "RLX").set("conversion", "NO_COMPU_METHOD").set("lower_limit", "0").set("upper_limit", "1").kid(ks("AXIS_DESCR", &[("attribute", "STD_AXIS"), ("input_quantity", "M"), ("conversion", "NO_COMPU_METHOD"), ("lower_limit", "0"), ("upper_limit", "1")]));
+                    let text = file_text(&g, "m", &[rl, rlx, m, ax, cv, c]);
+                    cases.push(Case11 { label: format!("consistent {tag} {ctype} with axes {attrs:?} and a record layout describing exactly the STD_AXIS dimensions"), pos: format!("axis-layout/{tag}/{ctype}"), text, expect: None });
+                }
+            }
         }
     }
     if thorough {
